@@ -96,6 +96,8 @@ def replay (j : Json) : R Verdict := do
       | .ok c => Json.mkObj [("ok", Json.arr #[c.sampleSize, c.numConcurrent])]
       | .error .zeroSampleSize => "zeroSampleSize"
       | .error .zeroNumConcurrent => "zeroNumConcurrent"
+    if !(fieldD cj "again").isNull && (fieldD cj "again").compress != (fieldD cj "res").compress then
+      pf := pf ++ [s!"C09: one AlgoConfigBuilder({ssO}, {ncO}) asked twice for its configuration gives {(fieldD cj "res").compress} and then {(fieldD cj "again").compress}: a second run set up the same way is a different run"]
     if (fieldD cj "res").compress != want.compress then
       if dis.isNone then dis := some s!"AlgoConfigBuilder::build({ssO}, {ncO}) = {(fieldD cj "res").compress}, model {want.compress}"
       match (fieldD cj "res").getObjVal? "ok" with
